@@ -314,3 +314,51 @@ def r12_4(prog, out):
         out.holds(key, prog.loc(actor.loop), "the actor's outer select ends the task on the deletion signal, closing the mailbox")
     else:
         out.violation(key, prog.loc(actor.loop), "the subscription actor does not stop on the deletion signal: requests racing the deletion may wait forever")
+
+
+@rule("C12", "R12.5", "a gRPC error status in hand is never answered with Ok", floor=1)
+@rule("C10", "R12.5", "a gRPC error status in hand is never answered with Ok", floor=1)
+@rule("C17", "R12.5", "a gRPC error status in hand is never answered with Ok", floor=1)
+def r12_5(prog, out):
+    """NOT_FOUND for a deleted subscription, INVALID_ARGUMENT for a bad field .. are produced deep inside a handler; they reach
+    the client only if no `match` on the way maps the `Err(status)` arm to a normal answer
+    (`match timeout(..).await { Ok(Ok(v)) => v, _ => Vec::default() }` swallows the status of the inner Result)."""
+    n = 0
+    for b in prog.facts.lib_bodies():
+        if b.file.startswith("/") or not b.file.startswith("src/api/"):
+            continue
+        bi = prog.info(b.id)
+        errs = error_blocks(bi)
+        # blocks that yield an Err item of a stream / build an Err for a residual also count as reporting
+        for blk in b.blocks:
+            if blk.cleanup or blk.idx not in bi.cfg.reach:
+                continue
+            t = blk.term
+            if t.k != "switch" or t.discr is None or t.discr.place is None or not t.discr.place.is_local():
+                continue
+            for st in blk.stmts:
+                if not (st.k == "assign" and st.rv.k == "discr" and st.lhs.is_local() and st.lhs.local == t.discr.place.local):
+                    continue
+                pty = b.place_ty(st.rv.place) or ""
+                if not (pty.startswith("std::result::Result<") and pty.endswith(", tonic::Status>")):
+                    continue
+                arms = dict(t.arms)
+                err_t = arms.get(1, t.otherwise if 0 in arms else None)
+                if err_t is None:
+                    continue
+                n += 1
+                key = "status-kept:%s" % prog.short(b.id)
+                reporting = set(errs)
+                for x in bi.cfg.reach:
+                    tt = b.blocks[x].term
+                    if tt.k == "call" and tt.callee is not None and (tt.callee.path.endswith("FromResidual::from_residual") or tt.callee.path in L.STATUS_CTORS):
+                        reporting.add(x)
+                    for s2 in b.blocks[x].stmts:
+                        if s2.k == "assign" and s2.rv.k == "agg" and s2.rv.j.get("variant") == "Err" and s2.rv.j.get("adt") == "std::result::Result":
+                            reporting.add(x)
+                esc = bi.cfg.escapes(bi._skip_false(err_t), reporting, after=False)
+                if esc is None:
+                    out.holds(key, bi.loc(blk.idx), "the Err(status) arm ends in an error answer", nontrivial=False)
+                else:
+                    out.violation(key, bi.loc(blk.idx), "an Err(status) in hand is turned into a normal answer: the client gets OK (e.g. an empty response) where the "
+                                  "operation reported an error such as NOT_FOUND for a deleted subscription", ["bb%d (%s)" % (x, bi.loc(x)) for x in esc][:8])
